@@ -30,7 +30,7 @@ THEOREMS = {
 }
 ENDPOINT_THEOREM = NS + "C15_endpoints"
 
-MODES = {"C14": "fault,mutate,witness", "C15": "fidelity,tcp,mutate,witness"}
+MODES = {"C14": "fault,mutate,witness", "C15": "fidelity,tcp,broadcast,mutate,witness"}
 WORKERS = 16
 
 ASSUMPTIONS = [
